@@ -283,6 +283,17 @@ pub fn run_prop<P: Prop>(p: &P, args: &RunArgs) -> i32 {
         };
     }
 
+    // remove stale replay files of earlier runs of this check and tier
+    if let Ok(rd) = std::fs::read_dir(verif_root().join("out").join("replays")) {
+        let prefix = format!("{id}-{}-", args.tier.name());
+        let prefix2 = format!("{id}-probe-");
+        for e in rd.filter_map(|e| e.ok()) {
+            let n = e.file_name().to_string_lossy().to_string();
+            if n.starts_with(&prefix) || n.starts_with(&prefix2) {
+                let _ = std::fs::remove_file(e.path());
+            }
+        }
+    }
     let mut violations = 0u32;
     let mut known_lines: Vec<String> = vec![];
     let mut regressions_replayed = 0u64;
